@@ -581,10 +581,11 @@ impl InstrFormat for InstrFormat06 {
         }
     }
 
-    fn write_instr(&self, f: &mut BinWriter, _: &dyn Emitter, instr: &RawInstr) -> WriteResult {
-        f.write_i16(instr.time as _)?;
-        f.write_u8(instr.opcode as _)?;
-        f.write_u8(instr.args_blob.len() as _)?;
+    fn write_instr(&self, f: &mut BinWriter, emitter: &dyn Emitter, instr: &RawInstr) -> WriteResult {
+        f.write_i16(llir::fit_instr_field(emitter, instr, "time", instr.time)?)?;
+        // the opcode is a signed byte (read back sign-extended)
+        f.write_i8(llir::fit_instr_field(emitter, instr, "opcode", instr.opcode as i16)?)?;
+        f.write_u8(llir::fit_instr_field(emitter, instr, "argument size", instr.args_blob.len())?)?;
         f.write_all(&instr.args_blob)?;
         Ok(())
     }
@@ -614,10 +615,11 @@ impl InstrFormat for InstrFormat07 {
         Ok(ReadInstr::Instr(RawInstr { time, opcode: opcode as _, param_mask, args_blob, ..RawInstr::DEFAULTS }))
     }
 
-    fn write_instr(&self, f: &mut BinWriter, _: &dyn Emitter, instr: &RawInstr) -> WriteResult {
+    fn write_instr(&self, f: &mut BinWriter, emitter: &dyn Emitter, instr: &RawInstr) -> WriteResult {
+        llir::forbid_reserved_opcode(emitter, instr, 0xFFFF)?;
         f.write_u16(instr.opcode)?;
-        f.write_u16(self.instr_size(instr) as _)?;
-        f.write_i16(instr.time as _)?;
+        f.write_u16(llir::fit_instr_field(emitter, instr, "instruction size", self.instr_size(instr))?)?;
+        f.write_i16(llir::fit_instr_field(emitter, instr, "time", instr.time)?)?;
         f.write_u16(instr.param_mask as _)?;
         f.write_all(&instr.args_blob)?;
         Ok(())
